@@ -39,11 +39,13 @@ def gen(rng, broker, tier):
     else:
         p = rng.choice([1, 2, 5, 10, 60, 600, 3600])
         iters = rng.randint(4, 20)
-    shape = rng.choice(["const", "grow", "shrink", "random", "overrun"])
+    shape = rng.choice(["const", "grow", "shrink", "random", "overrun", "zero"])
     retries = rng.choice([0, 0, 1, 2])
     prof = []
     for i in range(iters):
-        if shape == "const":
+        if shape == "zero":
+            d = 0  # finishes within the millisecond it was delivered in (delivery may be up to 1 ms early on RabbitMQ)
+        elif shape == "const":
             d = int(p * 1e6 * 0.1)
         elif shape == "grow":
             d = int(p * 1e6 * min(0.95, 0.05 + 0.1 * i))
